@@ -228,6 +228,10 @@ func RunC05(c *core.Ctx) {
 					c.Fail("hang@kex.SessionCrypter.Decrypt", meta, "kex.decrypt", p, o)
 				case honest && o.Impl != "ok b:"+hex.EncodeToString(pt):
 					c.Fail("honest-rejected:"+si.id.String(), "decrypting the sender's message did not return its plaintext: "+o.Impl, "kex.decrypt", p, o)
+				case meta == "other-sek" && si.kSVK > 0 && bytes.Equal(k2, svk):
+					// encrypt-then-MAC with the right MAC key and another encryption key: the tag verifies (that is all the tag
+					// covers) and what comes out is garbage, which now and then happens to be well-formed CBOR. Nobody tampered
+					// with anything: the receiver holds the wrong key. Compared with the model only.
 				case !honest && strings.HasPrefix(o.Impl, "ok") && o.Impl != "ok b:"+hex.EncodeToString(pt):
 					c.Fail("accepted-different-plaintext:"+si.id.String()+":"+meta, "an altered message was accepted with different content", "kex.decrypt", p, o)
 				case !honest && strings.HasPrefix(o.Impl, "ok") && (si.id != su.id || !bytes.Equal(k1, sek) || !bytes.Equal(k2, svk)):
